@@ -215,6 +215,10 @@ def attribute(f):
             props |= {"ack": {"C03", "C04"}, "push": {"C02", "C03", "C05"}, "reset": {"C06", "C10", "C05", "C07", "C03"},
                       "finish": {"C05", "C15", "C06"}, "connect": {"C07"}, "dgram": {"C11"}, "bind": {"C15"},
                       "close": {"C08"}, "ping": {"C16"}, "pong": {"C16"}}.get(op, set())
+        # the message this poll received tells which service the divergence is about
+        rop = (u.get("rcv") or {}).get("op")
+        props |= {"dgram": {"C11"}, "bind": {"C15"}, "connect": {"C07"}, "push": {"C02", "C03"}, "ack": {"C03", "C04"},
+                  "finish": {"C05"}, "reset": {"C05", "C06"}, "junk": {"C10"}}.get(rop, set())
         if res != "pending" or (exp_res and exp_res != {"pending"}):
             if res not in exp_res:
                 props |= {"C08", "C10"}
